@@ -617,6 +617,10 @@ pub fn run_inflate<Zx: Z>(wb: i32, input: &[u8], sched: &ISched, env: &Env, ex: 
                 Zx::inflateEnd(s.p());
                 return Err(format!("{}: inflate returned undocumented status {ret}", Zx::NAME));
             }
+            if ret == Z_BUF_ERROR && flush != Z_FINISH && (din != 0 || dout != 0) {
+                Zx::inflateEnd(s.p());
+                return Err(format!("{}: inflate returned Z_BUF_ERROR although the call consumed {din} and produced {dout} bytes", Zx::NAME));
+            }
             t.out.extend_from_slice(std::slice::from_raw_parts(pout, dout));
             pos += din;
             t.calls.push(Call { op: 0, flush, ret, din: din as u32, dout: dout as u32 });
